@@ -3,7 +3,12 @@ use std::fs::File;
 use std::io::{BufWriter, Write};
 use std::marker;
 use std::path::Path;
+#[cfg(not(arroy_verif))]
 use std::sync::atomic::{AtomicBool, AtomicU32, AtomicU64, Ordering};
+#[cfg(arroy_verif)]
+use std::sync::atomic::Ordering;
+#[cfg(arroy_verif)]
+use crate::verif::{AtomicBool, AtomicU32, AtomicU64};
 
 use heed::types::Bytes;
 use heed::{BytesDecode, BytesEncode, RoTxn};
@@ -186,6 +191,19 @@ impl ConcurrentNodeIds {
         } else {
             Ok(self.current.fetch_add(1, Ordering::Relaxed))
         }
+    }
+}
+
+#[cfg(arroy_verif)]
+impl ConcurrentNodeIds {
+    /// (current, used, select_in_bitmap, look_into_bitmap), read without yielding.
+    pub fn verif_state(&self) -> (u32, u64, u32, bool) {
+        (
+            self.current.peek(),
+            self.used.peek(),
+            self.select_in_bitmap.peek(),
+            self.look_into_bitmap.peek(),
+        )
     }
 }
 
